@@ -716,7 +716,7 @@ pub fn run(args: &Args) -> i32 {
          without any disagreement; distinct = distinct (shape, operation, key) traces",
     );
     let n_shards = 160u64;
-    let rounds = args.scale(250, 4_000);
+    let rounds = args.scale(250, 6_000);
     vcommon::monitor::run_shards(&mut mon, args.threads, n_shards, |shard, m| {
         let mut rng = Rng::derive(args.seed, shard, 34);
         for r in 0..rounds {
